@@ -174,16 +174,22 @@ theorem rotation_spectrum_count (c s : Rat) (h : c * c + s * s = 1) :
     have hb : (s == 0) = false := by simpa using hs
     simp [List.filter, one, hb, hf]
 
-/-- so, when the solver reports that spectrum, the translated recovery answers exactly away from the identity and the
+/-- so, when the solver reports that spectrum IN ANY ORDER (numpy returns `[c+is, c−is, 1]` for a rotation about `x`;
+the harness checks the multiset on every case), the translated recovery answers exactly away from the identity and the
 half-turns — `axis_angle_3d_defined_iff` for the decision the SOURCE takes -/
 theorem axis_angle3_src_defined_iff (eig : Rows → List EVal × List (List Rat)) (sqrt : Rat → Rat) (rand : List Rat) (t : Tr)
-    (c s : Rat) (h : c * c + s * s = 1) (hspec : (eig t.linRows).1 = rotationSpectrum c s)
+    (c s : Rat) (h : c * c + s * s = 1) (hspec : ((eig t.linRows).1).Perm (rotationSpectrum c s))
     (hlen : (eig t.linRows).2.length = 3) :
     axisAngle3Src eig sqrt rand t = none ↔ (s = 0 ∧ (c = 1 ∨ c = -1)) := by
-  rw [axis_angle3_src_decision eig sqrt rand t (by rw [hspec, hlen]; rfl), hspec, rotation_spectrum_count c s h,
+  have hl : (eig t.linRows).1.length = (eig t.linRows).2.length := by rw [hspec.length_eq, hlen]; rfl
+  rw [axis_angle3_src_decision eig sqrt rand t hl, (hspec.filter _).length_eq, rotation_spectrum_count c s h,
     ← axis_angle_3d_defined_iff c s h]
   unfold axisAngle3Defined
   cases hn : (nRealUnitEigenvalues c s == 1) <;> simp_all
+
+/-- non-vacuity: numpy's order for a rotation about `x` (the conjugate pair first) satisfies the hypothesis -/
+example : ([⟨false, 3/5⟩, ⟨false, 3/5⟩, ⟨true, 1⟩] : List EVal).Perm (rotationSpectrum (3/5) (4/5)) := by
+  decide +kernel
 
 /-! ### 3-D axis and angle: the computation after the decision -/
 
@@ -236,6 +242,30 @@ theorem axis_angle3_src_reconstructs (sqrt : Rat → Rat) (cls : Cls) (m : Aff3)
     axisAngle3After sqrt r.toL (.homog cls (.a3 m)) a0.toL = (a.toL, ⟨c, decide (s < 0)⟩) := by
   have hfun : m.l.apply = rodrigues a c s := funext hR
   rw [axis_angle3_src_computation sqrt cls m a0 r a p hA hP, hfun, (axis_angle_reconstructs_3d a p c s ha hp hap).1]
+
+/-- the real number an `ArcAngle` stands for: `arccos` of its cosine, negated when the code multiplied by `-1.0` -/
+noncomputable def ArcAngle.toReal (a : ArcAngle) : ℝ := if a.negated then -arccos (a.cos : ℝ) else arccos (a.cos : ℝ)
+
+/-- the angle `⟨c, s < 0⟩` that `axis_angle3_src_reconstructs` shows the translated recovery reports IS the signed
+angle: for `c = cos θ`, `s = sin θ` with `−π < θ < π` it denotes `θ` (at rational `c`, `s`: the model is over ℚ) -/
+theorem arc_angle_denotes_signed_angle (c s : Rat) (θ : ℝ) (hc : (c : ℝ) = cos θ) (hs : (s : ℝ) = sin θ)
+    (h1 : -π < θ) (h2 : θ < π) : (ArcAngle.mk c (decide (s < 0))).toReal = θ := by
+  unfold ArcAngle.toReal
+  by_cases hneg : s < 0
+  · have hsR : sin θ < 0 := by rw [← hs]; exact_mod_cast hneg
+    have hθ : θ < 0 := by
+      by_contra hge
+      have : 0 ≤ sin θ := sin_nonneg_of_nonneg_of_le_pi (not_lt.mp hge) h2.le
+      linarith
+    simp only [hneg, decide_true, if_true, hc]
+    rw [← cos_neg, arccos_cos (by linarith) (by linarith)]; ring
+  · have hsR : 0 ≤ sin θ := by rw [← hs]; exact_mod_cast (not_lt.mp hneg)
+    have hθ : 0 ≤ θ := by
+      by_contra hlt
+      have : sin θ < 0 := sin_neg_of_neg_of_neg_pi_lt (not_le.mp hlt) h1
+      linarith
+    simp only [hneg, decide_false, Bool.false_eq_true, if_false, hc]
+    exact arccos_cos hθ h2.le
 
 /-- NO HISTORY: what the translated recovery reports depends on the rotation matrix the object holds NOW and on nothing
 else — two objects with the same linear part (whatever their class, translation or previous life: built by a
